@@ -606,6 +606,111 @@ def _clauses(lst):
     return out
 
 
+
+_FN_INDEX = None
+
+
+class _Everything(set):
+    def __contains__(self, x):
+        return True
+
+
+_ALL_NAMES = _Everything()
+
+
+def _match_paren(text, mask, open_idx):
+    d = 0
+    for i in range(open_idx, len(text)):
+        if mask[i]:
+            if text[i] in "([{":
+                d += 1
+            elif text[i] in ")]}":
+                d -= 1
+                if d == 0:
+                    return i
+    return -1
+
+
+def _split_top(text):
+    """split at top-level commas (text without the enclosing parentheses)"""
+    mask = rustscan.code_mask(text)
+    out, d, last = [], 0, 0
+    for i, ch in enumerate(text):
+        if not mask[i]:
+            continue
+        if ch in "([{<" and not (ch == "<" and i > 0 and text[i - 1] in " =") :
+            d += 1
+        elif ch in ")]}>" and not (ch == ">" and i > 0 and text[i - 1] in "-="):
+            d -= 1
+        elif ch == "," and d == 0:
+            out.append(text[last:i]); last = i + 1
+    tail = text[last:]
+    if tail.strip():
+        out.append(tail)
+    return [x.strip() for x in out]
+
+
+def r21_inline_helpers(sf, container, body, known, self_name, known_free=_ALL_NAMES):
+    """R21: a call `self.helper(args)` / `Self::helper(args)` of a method of the same type that is not under
+    contract in this unit (typically a helper split off the function) is replaced by the helper's body: a block
+    that first evaluates the arguments in order, binds them to the parameters and then runs the body (the
+    textbook beta-reduction of a call; only for helpers without `return`, `?`, generics and recursion, at most three
+    levels deep).  Returns (body, [names inlined])."""
+    done = []
+    for _round in range(3):
+        mask = rustscan.code_mask(body)
+        hit = None
+        for mm in re.finditer(r"(\bself\.|\bSelf::|(?<![\w.:!]))([a-z_]\w*)\(", body):
+            if not mask[mm.start()] or (mm.start() > 0 and body[mm.start() - 1] in "._:"):
+                continue
+            name = mm.group(2)
+            free = mm.group(1) == ""
+            if free:
+                if name in known_free or name == self_name or re.search(r"\bfn\s*$", body[:mm.start()]):
+                    continue
+            elif container is None or name in known or name == self_name:
+                continue
+            try:
+                cal = sf.find_fn(name, None if free else container, 0)
+            except ScanError:
+                continue
+            csig = strip_vis(strip_comments(cal.signature)).strip()
+            cbody = strip_comments(cal.body)
+            cm = rustscan.code_mask(cbody)
+            if re.search(r"\bfn\s+\w+\s*<", csig) or "where" in csig.split(")")[-1]:
+                continue
+            if any(cm[x.start()] for x in re.finditer(r"\breturn\b|\?", cbody)):
+                continue
+            if re.search(r"\b(self\.|Self::)%s\(" % re.escape(name), cbody):
+                continue
+            po = csig.index("(")
+            pc = _match_paren(csig, rustscan.code_mask(csig), po)
+            params = _split_top(csig[po + 1:pc])
+            takes_self = bool(params) and re.match(r"^(&\s*(mut\s+)?|mut\s+)?self$", re.sub(r"&\s*'\w+\s*", "&", params[0])) is not None
+            if (mm.group(1).strip() == "self.") != takes_self:
+                continue
+            if takes_self:
+                params = params[1:]
+            ao = mm.end() - 1
+            ac = _match_paren(body, mask, ao)
+            if ac < 0:
+                continue
+            args = _split_top(body[ao + 1:ac])
+            if len(args) != len(params):
+                continue
+            hit = (mm.start(), ac + 1, name, params, args, cbody)
+            break
+        if not hit:
+            break
+        (a, b, name, params, args, cbody) = hit
+        inner = cbody[cbody.index("{") + 1:cbody.rindex("}")]
+        binds = "".join("let __r21_%d = %s; " % (i, x) for i, x in enumerate(args))
+        binds += "".join("let %s = __r21_%d; " % (prm, i) for i, prm in enumerate(params))
+        body = body[:a] + "({ /* R21: %s inlined */ %s%s })" % (name, binds, inner) + body[b:]
+        done.append(name)
+    return body, done
+
+
 class Fn:
     """A function cut out of the source with a contract spliced in.
 
@@ -669,6 +774,12 @@ class Fn:
         applied = ["R1"]
         sig = strip_vis(strip_comments(it.signature)).strip()
         body = strip_comments(it.body)
+        if not self.stub:
+            body, inl = r21_inline_helpers(sf, self.container, body, unit.known_fn_names(self.file, self.container), self.name,
+                                           unit.known_fn_names(self.file, None))
+            if inl:
+                applied.append("R21")
+                unit.inlined.setdefault(where, []).extend(inl)
         for rw in self.sig_rewrites:
             sig, n = rw.apply(sig, where + " (signature)")
             applied.append(rw.rid)
@@ -912,6 +1023,7 @@ class Unit:
         self.fns = {}          # fid -> dict(kind, clauses, props, lemma, obj)
         self.extracted = []    # evidence: items cut from the source
         self.rewrite_counts = {}
+        self.inlined = {}      # R21: function -> helpers of the same type inlined into it
 
     def note_item(self, file, what, it, applied):
         h = hashlib.sha256(it.text.encode()).hexdigest()[:16]
@@ -947,6 +1059,23 @@ class Unit:
                 cprops[c.label] = sorted(set(toks)) if toks else sorted(served or set(props))
         self.fns[fid] = {"kind": kind, "clauses": {c.label: c for c in clauses}, "props": props,
                          "clause_props": cprops, "lemma": lemma, "obj": obj}
+
+    def known_fn_names(self, file, container):
+        """names of the functions of `container` (in `file`) that exist on the pinned tree (specs/fn_index.json) or
+        that this unit has under contract: calls to them are left alone (contracts, models and rewrites deal with
+        them); only a helper that is new relative to the pinned tree is inlined (R21)"""
+        global _FN_INDEX
+        if _FN_INDEX is None:
+            try:
+                with open(os.path.join(SPECS, "fn_index.json")) as f:
+                    _FN_INDEX = json.load(f)
+            except Exception:
+                _FN_INDEX = {}
+        if file not in _FN_INDEX:
+            return _ALL_NAMES     # no index for this file: never inline
+        pre = (container or "") + "::"
+        names = set(x[len(pre):] for x in _FN_INDEX[file] if x.startswith(pre))
+        return names | set(it.name for it in self.items if isinstance(it, Fn) and it.file == file and it.container == container)
 
     def generate(self, findings=True):
         """findings=False: leave the finding variants out (they are verified by a second, parallel
